@@ -109,7 +109,8 @@ func Run(c *vl.Ctx) {
 			c.Sample(map[string]string{"id": cases[i].ID, "program": fl.Render(cases[i].P)})
 		}
 	}
-	c.Count("programs_compiled", r.Programs)
+	r.Report()
+	r.Close()
 	c.Assume = append(c.Assume, "the quantifier is 'accepted by both targets': programs one back end rejects are counted per family, not judged",
 		"a module the compiler produced with exit 0 but that cannot be instantiated with the shipped runtime.js counts as a disagreement (termination `invalid`)")
 	c.Finish(vl.Coverage{Evaluations: int64(len(cases)), Exhaustive: true,
